@@ -458,10 +458,12 @@ writeloop:
 				}
 			}
 
-			if isOpenRoot {
-				// Always move into root.
-				i.addNext = 0
+			if !isOpenRoot {
+				// Closing tag of the root we started inside of: end of content.
+				break writeloop
 			}
+			// Always move into root.
+			i.addNext = 0
 			i.AdvanceInto()
 			stack = append(stack, stackRoot)
 			continue
